@@ -288,6 +288,7 @@ int main(int argc, char** argv) {
         for (uint64_t r : {1ULL, 1000ULL, 1000000ULL, 1000000000ULL}) tasks.push_back({1, r});
         tasks.push_back({2, 0});
         for (uint64_t i = 0; i < 4; i++) tasks.push_back({4, i});   // kind 4: blocks built from RAW QueryResponse / MalformedMessage items (the low-level overloads keep the earliest time themselves)
+        for (uint64_t r : {1ULL, 1000ULL, 1000000ULL, 1000000000ULL}) tasks.push_back({5, r});   // kind 5: blocks whose times sit at the 2^31 / 2^32 / 2^63 boundaries, through the file and both readers
         static const uint64_t RR[] = {1, 1000, 1000000, 1000000000}; for (uint64_t i = 0; i < 16; i++) if (i / 4 != i % 4) tasks.push_back({3, i});   // kind 3: a block object re-used for a file with another tick rate (rate = 4 * first + second)
         auto run_task = [&](const Task& t, Result& R) {
             std::vector<HV> out; uint64_t n = 0;
@@ -308,6 +309,26 @@ int main(int argc, char** argv) {
                     catch (std::exception& x) { out.push_back({"raw-items|unreadable", x.what()}); }
                     for (auto& v : out) R.violation("time|" + v.key, v.what, rep); if (!out.empty()) { R.outcome("kind4:viol"); return; } }
                 R.outcome("kind4:ok"); return; }
+            if (t.kind == 5) { // every ordered pair over the boundary instants of kind 1 (seconds 0, 1, 2^31-1, 2^31, 2^32-1, 2^32, max-1, max at this rate; ticks 0, 1, rate-1): two raw items in one block, written, read by the library reader and by the independent reader
+                const uint64_t M = smax(t.rate); std::vector<std::pair<uint64_t, uint64_t>> P5; std::set<std::pair<uint64_t, uint64_t>> seen5;
+                for (uint64_t s : {(uint64_t)0, (uint64_t)1, (uint64_t)0x7fffffff, (uint64_t)0x80000000ULL, (uint64_t)0xffffffffULL, (uint64_t)0x100000000ULL, M - 1, M}) for (uint64_t k : {(uint64_t)0, (uint64_t)1, t.rate - 1}) if (k < t.rate && (u128)s * t.rate + k < ((u128)1 << 63) && seen5.insert({s, k}).second) P5.push_back({s, k});   // normalised instants only (ticks < rate): those are recovered as the same pair
+                BlockParameters bp; bp.storage_parameters.ticks_per_second = t.rate; bp.storage_parameters.max_block_items = 1000; std::vector<BlockParameters> bps = {bp}; FilePreamble fp(bps);
+                for (size_t i0 = 0; i0 < P5.size() && out.empty(); i0++) for (size_t i1 = 0; i1 < P5.size() && out.empty(); i1++) for (int mm = 0; mm < 2 && out.empty(); mm++) {
+                    std::string rep = "kind=5;rate=" + std::to_string(t.rate); set_note(rep); R.count("traces"); R.count("nontrivial"); n++;
+                    CdnsBlock b(bp, 0); std::vector<std::pair<uint64_t, uint64_t>> want = {P5[i0], P5[i1]}, got;
+                    { QueryResponse q; q.time_offset = Timestamp(P5[i0].first, P5[i0].second); q.client_port = 7; b.add_question_response_record(q); }
+                    if (mm) { MalformedMessage m; m.time_offset = Timestamp(P5[i1].first, P5[i1].second); m.client_port = 7; b.add_malformed_message(m); } else { QueryResponse q; q.time_offset = Timestamp(P5[i1].first, P5[i1].second); q.client_port = 8; b.add_question_response_record(q); }
+                    std::string where = "items at (" + std::to_string(P5[i0].first) + "," + std::to_string(P5[i0].second) + ") and (" + std::to_string(P5[i1].first) + "," + std::to_string(P5[i1].second) + ") at rate " + std::to_string(t.rate) + (mm ? " [second is a malformed message]" : "");
+                    std::vector<std::string> outs; { CdnsExporter ex(fp, MemSink{&outs}, CborOutputCompression::NO_COMPRESSION); ex.write_block(b); }
+                    try { std::istringstream is(outs.at(0)); CdnsReader rd(is); bool eof = false; CdnsBlockRead br = rd.read_block(eof);
+                          for (auto& q : br.m_query_responses) if (q.time_offset) got.push_back({q.time_offset->m_secs, q.time_offset->m_ticks}); for (auto& m : br.m_malformed_messages) if (m.time_offset) got.push_back({m.time_offset->m_secs, m.time_offset->m_ticks});
+                          if (got != want) out.push_back({"boundary-times|times-not-recovered", where + ": the library reader returns other record times"}); }
+                    catch (std::exception& x) { out.push_back({"boundary-times|unreadable", where + ": " + x.what()}); }
+                    std::string rdump, ldump; try { rdump = lib::file_dump(ref::read_file(outs.at(0))); } catch (std::exception& e) { rdump = std::string("INVALID: ") + e.what(); } ldump = lib::file_dump(lib::read_bytes(outs.at(0)));
+                    if (rdump.rfind("INVALID", 0) == 0) out.push_back({"boundary-times|invalid-output", where + ": " + rdump.substr(0, 80)});
+                    else if (rdump != ldump) out.push_back({"boundary-times|readers-disagree", where + ": CdnsReader and the independent reader return different blocks"});
+                    R.count("blocks_validated"); }
+                for (auto& v : out) R.violation("time|" + v.key, v.what, "kind=5;rate=" + std::to_string(t.rate)); R.outcome(std::string("kind5") + (out.empty() ? ":ok" : ":viol")); return; }
             if (t.kind == 3) { // one CdnsBlock object: filled and written under parameters A (rate r1), cleared, given parameters B (rate r2) under the SAME index 0, filled and written to a second file
                 uint64_t r1 = RR[t.rate / 4], r2 = RR[t.rate % 4]; BlockParameters bpA, bpB; bpA.storage_parameters.ticks_per_second = r1; bpB.storage_parameters.ticks_per_second = r2; bpA.storage_parameters.max_block_items = bpB.storage_parameters.max_block_items = 100000;
                 std::vector<BlockParameters> va = {bpA}, vb = {bpB}; FilePreamble fa(va), fb(vb); std::vector<std::string> oa, ob; const Pools PA = make_pools(r1), PB = make_pools(r2);
